@@ -93,9 +93,11 @@ impl ReturnType for UnaryOperation {
     fn return_type(&self) -> Type {
         let return_type = self.instruction.return_type();
         match self.op {
-            UnaryOperator::Sum | UnaryOperator::Product => {
-                return_type.iter_element().unwrap_or(Type::Never)
-            }
+            // sum::exec / product::exec give an iterator without elements the int identity
+            UnaryOperator::Sum | UnaryOperator::Product => match return_type.iter_element() {
+                Some(Type::Never) | None => Type::Int,
+                Some(element) => element,
+            },
             UnaryOperator::Not | UnaryOperator::UnaryMinus => return_type,
             UnaryOperator::Indirection => indirection::return_type(return_type),
             UnaryOperator::FunctionCall => return_type.return_type().unwrap(),
